@@ -304,6 +304,35 @@ func (db *SpecDB) checkIfaceConformance(pkg, iface, impl string) error {
 				return fmt.Errorf("%s: precondition of (%s).%s is missing: %s", k, impl, m, r.Src)
 			}
 		}
+		// frame: what the interface contract lets callers assume unchanged must have been proved
+		// unchanged for the implementation: every item of the implementation's (proved) modifies
+		// clause is an item of the interface's modifies clause, or the interface says `all`
+		if ic.ModStated {
+			ifaceAll := false
+			mods := map[string]bool{}
+			for _, it := range ic.Modifies {
+				it = norm(it)
+				if it == "all" {
+					ifaceAll = true
+				}
+				mods[it] = true
+				mods["fresh "+strings.TrimPrefix(it, "fresh ")] = true // a non-fresh item covers its fresh form
+			}
+			if !ifaceAll {
+				if !cc.ModStated {
+					return fmt.Errorf("%s: modifies clause stated but (%s).%s has none to conform to", k, impl, m)
+				}
+				for _, it := range cc.Modifies {
+					it = norm(it)
+					if it == "nothing" {
+						continue
+					}
+					if it == "all" || !mods[it] {
+						return fmt.Errorf("%s: modifies clause does not cover %q of (%s).%s", k, it, impl, m)
+					}
+				}
+			}
+		}
 	}
 	return nil
 }
